@@ -105,7 +105,8 @@ def gen_case(rng, argdump, out):
 
 def run_cases(build, rng, n):
     helper = os.path.join(build, 'bin', 'dbus-daemon-launch-helper-for-tests')
-    argdump = os.path.join(os.path.dirname(os.path.abspath(build)), 'harness', 'argdump').encode()
+    from daemon import harness_bin
+    argdump = harness_bin(build, 'argdump').encode()
     top = tempfile.mkdtemp(prefix='vh-', dir=os.environ.get('VERIF_TMP', '/tmp'))
     cases = []
     try:
